@@ -22,8 +22,10 @@ CONSTANT Enforce                  \* subset of {"C32", "C33", "C34", "C35"}
 E(p) == p \in Enforce
 
 VARIABLES
-    cfg,        \* [kind, in, out, mitm, bond, oob, sync]: manager variant, local IO, options, OOB data present,
-                \*   sync = -1: user answers later, 0/1: user answers "no"/"yes" inside the callback
+    cfg,        \* [kind, in, out, mitm, bond, oob, sync, pre]: manager variant, local IO, options, OOB data present,
+                \*   sync = -1: user answers later, 0/1: user answers "no"/"yes" inside the callback,
+                \*   pre = (EDIV,Rand) slots for which the application's bond data base holds an entry *of this peer* that
+                \*   the application put there itself (bonds of earlier connections); the only field that changes (Db)
     phase,      \* "idle" "leg_req" "leg_conf" "lesc_req" "lesc_keys" "lesc_conf" "lesc_rand" "completed"
     fam,        \* "none" | "legacy" | "lesc"     family of the current / last exchange
     alg,        \* method selected for the current exchange (IoCaps!Methods) or "none"
@@ -35,8 +37,8 @@ VARIABLES
     authOk,     \* phase = completed and the exchange authenticated the peer
     enc,        \* link encrypted
     budget,     \* key distribution items that may still be sent for the last completed pairing
-    dbLesc,     \* bond data base legitimately holds the LESC LTK of this peer under (EDIV,Rand) = (0,0)
-    dbNew       \* bond data base legitimately holds the LTK created for distribution (legacy bonding)
+    dbLesc,     \* bond data base legitimately holds the LTK of a LESC pairing of this connection under (EDIV,Rand) = (0,0)
+    dbNew       \* bond data base legitimately holds the LTK created for distribution (legacy bonding) of this connection
 
 vars == <<cfg, phase, fam, alg, mconf, ea, user, shown, pairedOk, authOk, enc, budget, dbLesc, dbNew>>
 
@@ -44,10 +46,20 @@ Phases == {"idle", "leg_req", "leg_conf", "lesc_req", "lesc_keys", "lesc_conf", 
 Kinds  == {"legacy", "lesc", "combined"}
 Outs   == {"none", "failed", "response", "confirm", "random", "pubkey", "dhkey", "ltk", "ediv_rand", "other"}
 Items  == {"ltk", "ediv_rand"}
+\* (EDIV,Rand) classes a key can be asked for / a bond can be stored under:
+\*   0: (0,0)   1: a pair some earlier bond was distributed with   2: a pair nobody ever distributed
+\*   3: the pair the bond created by a legacy pairing on this connection is distributed with
+\*   4: (0, Rand # 0)   5: (EDIV # 0, 0)
+Slots  == 0..5
+\* identity of an offered key: "cur" = the key the current / last exchange on this connection produces (reference
+\* computation), "old" = the key of an earlier exchange on this connection, "new" = the LTK created for distribution by the
+\* last legacy pairing, "newold" = by an earlier one, "this" / "other" = the key the application stored for slot kslot
+\* and this peer / another peer, "unknown" = none of these
+Kids   == {"none", "cur", "old", "new", "newold", "this", "other", "unknown"}
 
 TypeOK ==
     /\ cfg.kind \in Kinds /\ cfg.in \in 0..2 /\ cfg.out \in 0..1 /\ cfg.mitm \in BOOLEAN /\ cfg.bond \in BOOLEAN
-    /\ cfg.oob \in BOOLEAN /\ cfg.sync \in -1..1
+    /\ cfg.oob \in BOOLEAN /\ cfg.sync \in -1..1 /\ cfg.pre \subseteq Slots
     /\ phase \in Phases /\ fam \in {"none", "legacy", "lesc"} /\ alg \in Methods \cup {"none"}
     /\ mconf \in {"none", "good", "bad"} /\ ea \in {"none", "good", "bad"} /\ user \in {"na", "pending", "yes", "no"}
     /\ shown \in BOOLEAN /\ pairedOk \in BOOLEAN /\ authOk \in BOOLEAN /\ enc \in BOOLEAN
@@ -85,8 +97,10 @@ Complete(ok) ==
     /\ authOk' = IF fam = "legacy" THEN ok /\ alg # "just_works"
                                    ELSE alg = "numeric_comparison" /\ user = "yes" /\ shown
     /\ budget' = IF cfg.bond /\ fam = "legacy" THEN Items ELSE budget
-    /\ dbNew'  = (dbNew \/ (ok /\ cfg.bond /\ fam = "legacy"))
-    /\ dbLesc' = (dbLesc \/ (ok /\ cfg.bond /\ fam = "lesc"))
+    \* a bonding manager stores the key of a completed pairing (slot 3 / slot 0) over whatever was there: the entry
+    \* is legitimate afterwards iff this exchange was verified
+    /\ dbNew'  = IF cfg.bond /\ fam = "legacy" THEN ok ELSE dbNew
+    /\ dbLesc' = IF cfg.bond /\ fam = "lesc"   THEN ok ELSE dbLesc
     /\ mconf' = "none" /\ ea' = "none"
     /\ UNCHANGED <<cfg, fam, alg, user, shown, enc>>
 
@@ -182,15 +196,45 @@ Enc(on) ==
     /\ enc' = on
     /\ UNCHANGED <<cfg, phase, fam, alg, mconf, ea, user, shown, pairedOk, authOk, budget, dbLesc, dbNew>>
 
-(* the link layer looks up a key (LL_ENC_REQ): which = 0: (EDIV,Rand) = (0,0); 1: a bond stored before this  *)
-(* connection; 2: values nobody stored; 3: the EDIV/Rand distributed by the last legacy pairing.            *)
-(* found: a key is offered; kid: which key it is ("cur" = the key the current exchange produced);           *)
-(* dbsame: it equals what the bond data base holds for (EDIV, Rand, peer).                                    *)
-DbHas(which) == CASE which = 0 -> dbLesc [] which = 1 -> cfg.bond [] which = 3 -> dbNew [] OTHER -> FALSE
-Find(which, found, kid, dbsame) ==
+(* The bond data base is an object of the application (environment): at any time it may hold entries for any       *)
+(* (EDIV,Rand) slot - (0,0) included, that is where LESC bonds live - for this peer and for other peers, put there  *)
+(* by the application (bonds of earlier connections) or by the security manager (store_bond). Db: the application  *)
+(* adds / removes the entry of slot s for this peer (peer = 0) or for another peer (peer = 1). An entry of another  *)
+(* peer is never a key for this connection, so the spec keeps no state for it. Writing or erasing slot 0 / 3 for   *)
+(* this peer replaces what a pairing on this connection stored there.                                              *)
+Db(peer, s, on) ==
+    IF peer = 0
+    THEN /\ cfg' = [cfg EXCEPT !.pre = IF on THEN @ \cup {s} ELSE @ \ {s}]
+         /\ dbLesc' = (dbLesc /\ s # 0) /\ dbNew' = (dbNew /\ s # 3)
+         /\ UNCHANGED <<phase, fam, alg, mconf, ea, user, shown, pairedOk, authOk, enc, budget>>
+    ELSE Stay
+
+(* the link layer looks up a key (LL_ENC_REQ) for slot `which`.                                                    *)
+(* found: a key is offered; kid / kslot: which key it is (Kids); dbsame: it equals what the bond data base holds   *)
+(* for (EDIV, Rand, this peer) at the time of the call.                                                            *)
+(*                                                                                                                 *)
+(* C33: "... offers a key only after a pairing on this connection completed successfully (requested with EDIV=0    *)
+(* and Rand=0) or when the bond database holds a key for the requested EDIV/Rand and peer, and the offered key is  *)
+(* the one that pairing produced."                                                                                 *)
+(* DECISION for the case that BOTH exist for (0,0) - a pairing completed successfully on this connection and the   *)
+(* bond data base holds an entry for (0,0, peer) (an older LESC bond, or one the application stored): the last     *)
+(* clause is unconditional, so the offered key has to be the key that pairing produced ("cur"); the bond entry is  *)
+(* not an acceptable answer then. (The central that just paired encrypts with the new STK / LTK; an older bond key  *)
+(* would also put the link under a key whose authentication is not the one C35 reports for this pairing.) The bond  *)
+(* data base is the source only when no successfully completed pairing of this connection answers the request:     *)
+(* other slots, or slot 0 while pairing is idle / in progress / failed / completed without verification. A key     *)
+(* taken from the bond data base must be the entry of exactly (slot, this peer) and must have got there            *)
+(* legitimately: stored by the application (kid "this", same slot) or by a verified pairing on this connection     *)
+(* (slot 0: LESC LTK, kid "cur" / "old"; slot 3: the created LTK, kid "new").                                      *)
+PairingAnswers(which) == which = 0 /\ phase = "completed" /\ pairedOk
+DbHolds(which, kid, kslot) ==
+    \/ which \in cfg.pre /\ kid = "this" /\ kslot = which
+    \/ which = 0 /\ dbLesc /\ kid \in {"cur", "old"}
+    \/ which = 3 /\ dbNew  /\ kid = "new"
+Find(which, found, kid, kslot, dbsame) ==
     /\ E("C33") =>
-          (found => \/ which = 0 /\ phase = "completed" /\ pairedOk /\ kid = "cur"
-                    \/ DbHas(which) /\ dbsame)
+          (found => IF PairingAnswers(which) THEN kid = "cur"
+                                             ELSE DbHolds(which, kid, kslot) /\ dbsame)
     /\ Stay
 
 \* what has to be reported as pairing status (C35)
@@ -202,7 +246,8 @@ ExpStatus == IF phase # "completed" THEN "no_key"
 CONSTANTS Configs,      \* set of cfg records
           Requests,     \* set of request records [io, oob, auth, maxkey, idist, rdist]
           Opcodes,      \* SMP opcodes the environment uses (0..15 in the thorough tier)
-          LenClasses    \* length classes the environment uses (0 correct, 1 too short, 2 too long)
+          LenClasses,   \* length classes the environment uses (0 correct, 1 too short, 2 too long)
+          DbSlots       \* slots the application adds / removes bond data base entries for
 
 Init == \E c \in Configs : InitWith(c)
 
@@ -214,7 +259,8 @@ Next ==
     \/ \E op \in Opcodes, lc \in LenClasses, label \in 0..1, o \in Outs, sh \in BOOLEAN : Pdu(op, lc, label, o, sh)
     \/ \E o \in Outs : Poll(o)
     \/ \E b \in BOOLEAN : User(b) \/ Enc(b)
-    \/ \E w \in 0..3, f \in BOOLEAN, k \in {"cur", "old"}, s \in BOOLEAN : Find(w, f, k, s)
+    \/ \E w \in {0, 1, 3}, f \in BOOLEAN, k \in {"cur", "this"}, s \in BOOLEAN : Find(w, f, k, w, s)   \* (changes nothing)
+    \/ \E p \in 0..1, sl \in DbSlots, on \in BOOLEAN : Db(p, sl, on)
 
 Spec == Init /\ [][Next]_vars
 
